@@ -20,6 +20,8 @@ pub enum Ev {
     CloseReturned,
     ClientGone(u64),
     ResponseRead(u64),
+    /// a wait_for_shutdown() future (number n) resolved
+    WaiterReleased(u64),
 }
 
 #[derive(Default)]
